@@ -42,7 +42,7 @@ man = {
         "add_only": True,
     },
     "engines": [{"name": "harness", "path": "/verif/harness", "serves_properties": [c["property_id"] for c in checks],
-                 "kind_free_text": "Go harness (one main per property) built against /repo's working tree: workload generators + reference-model oracles + monitors (panic capture, purity snapshots, canonicity, guard pages, race detector, porcupine, gofail); python driver ./check runs stages as watched child processes and merges evidence"}],
+                 "kind_free_text": "Go harness (one main per property) built against /repo's working tree: workload generators + reference-model oracles + monitors (panic capture, purity snapshots, canonicity, guard pages, race detector, porcupine histories); python driver ./check runs stages as watched child processes and merges evidence"}],
     "checks": checks,
     "notes": "exit 0 held / 1 VIOLATION / 2 INCONCLUSIVE (never folded into the others). Known findings: /verif/KNOWN_FINDINGS.txt.",
     "not_applicable": na,
